@@ -122,6 +122,7 @@ func (db *DB) openMemTable(fid, flags int) (*memTable, error) {
 	// Have a callback set to delete WAL when skiplist reference count goes down to zero. That is,
 	// when it gets flushed to L0.
 	s.OnClose = func() {
+		y.VerifPoint("wal.delete.pre")
 		if err := mt.wal.Delete(); err != nil {
 			db.opt.Errorf("while deleting file: %s, err: %v", filepath, err)
 		}
@@ -153,10 +154,14 @@ func (db *DB) mtFilePath(fid int) string {
 }
 
 func (mt *memTable) SyncWAL() error {
+	y.VerifFile("sync", mt.wal.path)
 	return mt.wal.Sync()
 }
 
 func (mt *memTable) isFull() bool {
+	if verifForceFull(mt) {
+		return true
+	}
 	if mt.sl.MemSize() >= mt.opt.MemTableSize {
 		return true
 	}
@@ -209,6 +214,7 @@ func (mt *memTable) UpdateSkipList() error {
 	if endOff < mt.wal.size.Load() && mt.opt.ReadOnly {
 		return y.Wrapf(ErrTruncateNeeded, "end offset: %d < size: %d", endOff, mt.wal.size.Load())
 	}
+	y.VerifPoint("wal.replay.truncate.pre")
 	return mt.wal.Truncate(int64(endOff))
 }
 
@@ -328,6 +334,7 @@ func (lf *logFile) writeEntry(buf *bytes.Buffer, e *Entry, opt Options) error {
 		return err
 	}
 	y.AssertTrue(plen == copy(lf.Data[lf.writeAt:], buf.Bytes()))
+	y.VerifPoint("wal.store")
 	lf.writeAt += uint32(plen)
 
 	lf.zeroNextEntry()
@@ -407,6 +414,7 @@ func (lf *logFile) generateIV(offset uint32) []byte {
 
 func (lf *logFile) doneWriting(offset uint32) error {
 	if lf.opt.SyncWrites {
+		y.VerifFile("sync", lf.path)
 		if err := lf.Sync(); err != nil {
 			return y.Wrapf(err, "Unable to sync value log: %q", lf.path)
 		}
@@ -419,6 +427,7 @@ func (lf *logFile) doneWriting(offset uint32) error {
 	lf.lock.Lock()
 	defer lf.lock.Unlock()
 
+	y.VerifPoint("vlog.done.truncate.pre")
 	if err := lf.Truncate(int64(offset)); err != nil {
 		return y.Wrapf(err, "Unable to truncate file: %q", lf.path)
 	}
@@ -539,11 +548,13 @@ func (lf *logFile) open(path string, flags int, fsize int64) error {
 	lf.MmapFile = mf
 
 	if ferr == z.NewFile {
+		y.VerifPoint("log.created")
 		if err := lf.bootstrap(); err != nil {
 			os.Remove(path)
 			return err
 		}
 		lf.size.Store(vlogHeaderSize)
+		y.VerifPoint("log.bootstrapped")
 
 	} else if ferr != nil {
 		return y.Wrapf(ferr, "while opening file: %s", path)
